@@ -26,6 +26,9 @@ EXPRS = [
     'i ? p : cp', 'i ? cp : p', 'i ? vp : cp', 'i ? cp : vp', 'i ? p : v', 'i ? v : p', 'i ? cp : v', 'i ? v : cp', 'i ? p : cv', 'i ? cv : p', 'i ? p : 0', 'i ? 0 : cp', 'i ? (void *)0 : cp',
     'i ? cp : (void *)0', 'i ? s : cs', 'i ? ps : cps', 'i ? arr : cp', 'i ? fn : fn', 'i ? fn : 0', 'i ? st : st', 'i ? vfn() : vfn()',
     'i ? i : u', 'i ? c : c', 'i ? sh : sh', 'i ? uc : uc', 'i ? b : b', 'i ? sh : uc', 'i ? l : u', 'i ? ul : ll', 'i ? f : i', 'i ? d : f', 'i ? en : en', 'i ? en : i', 'i ? st.bf : st.bf', 'i ? 1 : 2u',
+    # constant controlling expression: the result type is still the one of 6.5.15p5/p6, not the type of the selected arm
+    '1 ? 0 : lp', '0 ? lp : 0', '1 ? (void *)0 : lp', '1 ? p : v', '0 ? v : p', '1 ? p : cp', '0 ? cp : p', '1 ? i : u', '0 ? u : i', '1 ? c : c', '1 ? f : d', '0 ? d : f', '1 ? l : i', '1 ? st.bf : l',
+    '1 ? arr : cp', '1 ? en : u', 'sizeof(1 ? c : c)',
     # pointer arithmetic, decay, address-of
     'p + 1', 'cp + i', '1 + s', 'p - 1', 'p - p', 'cp - p', '&arr[1] - arr', 'arr', 'arr + 0', '&arr', '&arr[0]', '*arr2', 'arr2[1]', '&arr2[1]', 'arr2 + 1', '*arr2 + 1', 'carr + 0', '&carr',
     'fn', '&fn', '*fn', 'fn(1)', 'vfn()', '(*fn)(1)', '(&fn)(2)', '*p', '*cp', '&*cp', '*&cp', 'p[1]', '1[p]', 'arr2[1][2]', '&arr2[1][2]',
@@ -159,7 +162,7 @@ def instances(tier, fam='typeof'):
         nm = re.sub(r'_+', '_', re.sub(r'[^A-Za-z0-9_]+', '_', nm)).strip('_')[:60]
         assert nm not in seen, 'duplicate instance name %s' % nm
         seen.add(nm)
-        i = parselib.parse_inst('%s.%s' % (fam, nm), src, False, fam, unwind=70, timeout=300 if tier == 'quick' else 1200, maxtok=400 if tier == 'quick' else 900)
+        i = parselib.parse_inst('%s.%s' % (fam, nm), src, False, fam, unwind=70, timeout=300 if tier == 'quick' else 1200, maxtok='fit')
         i.bound = {'expression': e, 'type (gcc)': pos, 'candidates checked': cands}
         L.append(i)
     return L
